@@ -130,6 +130,7 @@ type vC01Zone struct {
 	cut      string // how the parent delegates: "secure" | "insecure" | "unsupported" | "unproven" | "island"
 	ksk, zsk *vC01Key
 	nsec3    bool
+	dt       uint8 // digest type of the DS the parent publishes for this zone (every type the validator supports is drawn)
 }
 
 type vC01World struct {
@@ -285,7 +286,7 @@ func (x *vC01World) dsMsg(name string) *dns.Msg {
 	if child != nil && child.parent != nil {
 		switch child.cut {
 		case "secure", "island":
-			ds := x.w.ds(child.ksk.key, dns.SHA256)
+			ds := x.w.ds(child.ksk.key, child.dt)
 			m.Answer = x.sign(p, p.zsk, ds)
 			return m
 		case "unsupported":
@@ -353,6 +354,7 @@ func vC01NewWorld(r *rand.Rand) *vC01World {
 			alg := []uint8{dns.ED25519, dns.ED25519, dns.ECDSAP256SHA256}[r.Intn(3)]
 			z.ksk, z.zsk = x.w.newKey(z.name, 257, alg), x.w.newKey(z.name, 256, dns.ED25519)
 			z.nsec3 = r.Intn(5) == 0
+			z.dt = []uint8{dns.SHA256, dns.SHA256, dns.SHA384, dns.SHA1}[r.Intn(4)]
 		}
 		x.zones = append(x.zones, z)
 		parent = z
@@ -886,7 +888,7 @@ func vC01MidCase(rnd *rand.Rand, r *Resolver, tr *vC01Trace) {
 		resp.Ns = []dns.RR{&dns.NS{Hdr: dns.RR_Header{Name: z.name, Rrtype: dns.TypeNS, Class: dns.ClassINET, Ttl: 300}, Ns: x.sub("ns", z.name)}}
 		switch z.cut {
 		case "secure", "island":
-			resp.Ns = append(resp.Ns, x.sign(p, p.zsk, x.w.ds(z.ksk.key, dns.SHA256))...)
+			resp.Ns = append(resp.Ns, x.sign(p, p.zsk, x.w.ds(z.ksk.key, z.dt))...)
 		case "unsupported":
 			ds := x.w.ds(z.ksk.key, dns.SHA256)
 			ds.DigestType = 3
@@ -1250,7 +1252,7 @@ func vC01MidCase(rnd *rand.Rand, r *Resolver, tr *vC01Trace) {
 			km.Answer = x.resignAll([]dns.RR{ak.key}, ak, inc, exp)
 			forged = true
 		}
-		vds := x.w.ds(vksk.key, dns.SHA256)
+		vds := x.w.ds(vksk.key, vz.dt)
 		rk2 := vC01RankAll(x.allRR(km, resp)...)
 		rk2 = vC01RankAll(append(x.allRR(km, resp), []dns.RR{vds})...)
 		kmCoq := x.coqMsg(km, rk2)
